@@ -706,7 +706,9 @@ def run(ctx):
     for fi, cls in protocol_functions(M, ("_parse", "_build", "_sizeof", "_actualsize", "_decode", "_encode")):
         if any(isinstance(x, ast.Try) for x in ast.walk(fi.node)):
             n5 += check_undef(ctx, fi, cls)
-    ctx.floor("C06.R5", 10)
+    attributes_defined(ctx, "C06.R5")
+    no_undefined_names(ctx, "C06.R5")
+    ctx.floor("C06.R5", 10 + 300)
 
     # ---------------------------------------------------------------- positive controls
     from ..core import Ctx
